@@ -518,6 +518,48 @@ func diffClass(a, b hs.Value) string {
 	return "leaf:" + a.Kind().String()
 }
 
+// diffSite returns the innermost sub-values of a and b at which diffClass found the difference.
+func diffSite(a, b hs.Value) (hs.Value, hs.Value) {
+	if a == nil || b == nil || a.Kind() != b.Kind() {
+		return a, b
+	}
+	switch x := a.(type) {
+	case *hs.ListV:
+		y := b.(*hs.ListV)
+		if len(x.Elems) != len(y.Elems) {
+			return a, b
+		}
+		for i := range x.Elems {
+			if !hs.Equal(x.Elems[i], y.Elems[i]) {
+				return diffSite(x.Elems[i], y.Elems[i])
+			}
+		}
+	case *hs.ObjV:
+		y := b.(*hs.ObjV)
+		for _, k := range x.SortedKeys() {
+			if _, ok := y.M[k]; !ok {
+				return x.M[k], nil // the value under a key the other side lacks
+			}
+		}
+		for _, k := range y.SortedKeys() {
+			if _, ok := x.M[k]; !ok {
+				return nil, y.M[k]
+			}
+		}
+		for _, k := range x.SortedKeys() {
+			if !hs.Equal(x.M[k], y.M[k]) {
+				return diffSite(x.M[k], y.M[k])
+			}
+		}
+	case hs.OptV:
+		y := b.(hs.OptV)
+		if x.Inner != nil && y.Inner != nil {
+			return diffSite(x.Inner, y.Inner)
+		}
+	}
+	return a, b
+}
+
 // hasKind reports whether a value of the given kind occurs anywhere in v.
 func hasKind(v hs.Value, pred func(hs.Value) bool) bool {
 	if pred(v) {
